@@ -11,12 +11,37 @@ PYSYM_NOTE = ("Trusted base: z3 5.1 (python wheel in /venv); the pysym engine (/
               "(obligation discharged per path). Per-path symbolic results are cross-validated by re-running sampled paths with "
               "plain ints on the unmodified code, and every counterexample is replayed concretely in a fresh process before it is reported.")
 
+SIM_NOTE = PYSYM_NOTE + (" Whole-run checks: the real Simulator.simulate() is executed; a passive monitor (class-level wrappers installed from the harness) keeps its own ledger. "
+            "Planner policies that need a numeric solver are represented by a solver-driven 'Havoc' policy restricted to the per-decision contract of C10.")
+
+def sim(text, ref):
+    return dict(level="model_checking", design=ref, text=text, note=SIM_NOTE,
+                technique="symbolic execution of the real Simulator.simulate() (own z3-backed path explorer) over bounded worlds with symbolic numerics")
+
 CHECKS = {
+ "C01": sim("Every feasible path of whole simulation runs over a covering list of small worlds (2-3 tasks, 1-2 workers/pools, several resource instances and types, greedy policies and the solver-driven plan-ahead policy) "
+            "with symbolic capacities, demands and times; after every placement, event and clock step z3 proves ledger demand <= capacity for every worker and resource.", "3/C01"),
+ "C02": sim("Every feasible path of whole runs over chains, forks, joins, skip-diamonds and conditionals under greedy and plan-ahead (lookahead / release_taskgraphs / retraction) policies; "
+            "at every Task.start z3 proves start >= (declared) release and all predecessors completed by then; start/finish at most once.", "3/C02"),
+ "C03": sim("Every feasible path of whole runs with symbolic runtimes, releases, scheduler frequency/delay and plan-ahead placements (same-microsecond finish/placement coincidences under both name orders, re-planning with another strategy); "
+            "z3 proves completion = start + runtime of the applied strategy, release of resources at that instant, monotone clock, events handled at their time, start >= chosen time and = chosen time unless justified by the monitor's own ledger.", "3/C03"),
+ "C04": dict(level="model_checking", design="3/C04",
+   text="(a) one inductive step of every Resources operation from an arbitrary API-built state with symbolic quantities (several instances of a type, 'any' and specific requests); "
+        "(b) all histories of <=3 (quick) / 4 (thorough) Worker / WorkerPool operations chosen by the solver, symbolic demands and capacities, checked against an independent ledger, refusal atomicity, copy/deepcopy independence, drain-restores-capacity.",
+   technique="symbolic execution of the real Python (own z3-backed path explorer), bounded histories"),
+ "C05": sim("Every feasible path of whole runs under a derived step budget: zero-length tasks, equal-time releases, symbolic loop timeout, frequency, delay, run-at-worker-free, heterogeneous workers with 1-us retries, non-zero scheduler runtime; "
+            "z3 proves SIMULATOR_END is reached by the timeout, feasible work completes under work-conserving policies and no runnable released work is left. Three reproduced defects are listed as known findings.", "3/C05"),
+ "C06": sim("Every feasible path of whole runs with deadline enforcement, drop_skipped_tasks, solver-driven cancellation / skipping / re-planning over chains, forks, joins, diamonds with skip edges and 2/3-way conditionals; "
+            "every lifecycle call is checked against the legal transition relation and the cancellation closure (least fixpoint computed by the monitor) must equal the set of tasks reported CANCELLED.", "3/C06"),
  "C16": dict(level="model_checking", design="3/C16",
    text="All feasible paths of the real EventTime operators and EventQueue methods are enumerated with symbolic integer operands "
         "(every unit combination, |value| < 2^53 us) and symbolic event times/types; each algebraic law and each pop-is-minimum obligation "
-        "is a z3 query over the path condition. Bounded: <=3 operands, <=3 (quick) / 4 (thorough) queued events, enumerated operation scripts.",
+        "is a z3 query over the path condition. Bounded: <=3 operands, <=3 (quick) / 4 (thorough) queued events of mixed types, plus single-type heaps of 6-7 events, enumerated operation scripts.",
    technique="symbolic execution of the real Python (own z3-backed path explorer), bounded"),
+ "C17": dict(level="model_checking", design="3/C17",
+   text="Edges are solver booleans (every labelled digraph on 3 nodes incl. cycles, every 4-node DAG under 3 insertion orders, bounded 5-node DAGs; thorough: all 4096 4-node digraphs, all 5-node DAGs, bounded 6-node), "
+        "node weights symbolic positive integers (mixed time units); the real Graph/TaskGraph/JobGraph routines run on every feasible path and z3 compares them with reference definitions (all source-sink paths enumerated per structure).",
+   technique="symbolic execution of the real Python (own z3-backed path explorer), exhaustive small-scope structures with symbolic weights"),
 }
 
 NA_REASON = "check not built yet (build in progress, see DESIGN.md section 5)"
